@@ -36,6 +36,13 @@ def _single_assign(fn, name):
     return vals
 
 
+def conditional_defs_expr(e):
+    """the values a (possibly conditional) expression can take: [(value, None)]"""
+    if isinstance(e, ast.IfExp):
+        return conditional_defs_expr(e.body) + conditional_defs_expr(e.orelse)
+    return [(e, None)]
+
+
 def check(col: Collector, tier: str):
     repo = Repo()
     ld = repo.find_class("LocalDataset")
@@ -73,8 +80,14 @@ def check(col: Collector, tier: str):
     img = [n for n in walk_no_nested(init.node) if isinstance(n, ast.Assign) and src(n.targets[0]) == "self._docker_image"]
     ok = len(img) == 1 and isinstance(img[0].value, ast.JoinedStr) and _fstring_shape(img[0].value) == ["{docker_image}", ":", "{docker_tag}"]
     col.add("C17.R1", init.short, "image-is-image:tag", ok, f"self._docker_image must be f'{{docker_image}}:{{docker_tag}}' (found {src(img[0].value) if img else None})", init.loc)
-    files = [n for n in walk_no_nested(init.node) if isinstance(n, ast.Assign) and src(n.targets[0]) == "self.files"]
-    ok = len(files) == 1 and isinstance(files[0].value, ast.ListComp) and not files[0].value.generators[0].ifs
+    from sa.props._tr import mapped_list
+    ml = mapped_list(init.node, "self.files")
+    # one entry per given file, in order, each the file itself or Path(<file>)
+    ok = ml is not None and not any(isinstance(c, ast.Call) and call_name(c) in ("set", "sorted", "reversed", "frozenset", "fromkeys", "unique")
+                                    for c in ast.walk(init.node) if ml[0] in src(c))
+    if ok:
+        vals = {src(v_) for v_, _ in conditional_defs_expr(ml[1])}
+        ok = vals <= {ml[2], f"Path({ml[2]})"} and bool(vals)
     col.add("C17.R1", init.short, "all-files-kept-in-order", ok, "self.files must hold every given file, in order", init.loc)
 
     # ------------------------------------------------------------------ R5 temp dir encloses everything
